@@ -320,7 +320,9 @@ func (m *Module) OnFault(w *engine.World, f engine.Fault) {
 		return string(bz)
 	}
 	// "native supply plus ERC20 supply is unchanged"
+	conserved := true
 	if c := add(natAfter, ercAfter).Cmp(add(natBefore, ercBefore)); c != 0 {
+		conserved = false
 		key := "hook/under-minted/" + shape
 		if c > 0 {
 			key = "hook/over-minted/" + shape
@@ -328,9 +330,13 @@ func (m *Module) OnFault(w *engine.World, f engine.Fault) {
 		w.Violate("C10", key, "swap-to-native of %s: the contract burned %s in %d SwapToNative logs, the hook accepted the receipt and minted %s natively; native+ERC20 supply went from %s to %s; logs: %s",
 			t.Symbol, burnedTotal, recognised, minted, add(natBefore, ercBefore), add(natAfter, ercAfter), detail())
 	}
-	// every recognised log credits exactly its amount to its receiver
+	// every recognised log credits exactly its amount to its receiver (when the total is wrong
+	// the key above has said so; this one is for a right total in the wrong hands)
 	committed := n.Ctx()
 	for _, to := range engine.SortedKeys(want) {
+		if !conserved {
+			break
+		}
 		addr, err := sdk.AccAddressFromBech32(to)
 		if err != nil {
 			continue // cannot be credited; the supply comparison above has spoken
@@ -343,7 +349,7 @@ func (m *Module) OnFault(w *engine.World, f engine.Fault) {
 	// nothing sticks to the module account
 	mod := sdk.MustAccAddressFromBech32(modAddr)
 	stuck := sub(bank.GetBalance(ctx, mod, denom).Amount.BigInt(), bank.GetBalance(committed, mod, denom).Amount.BigInt())
-	if stuck.Cmp(orZero(want[modAddr])) != 0 {
+	if stuck.Cmp(orZero(want[modAddr])) > 0 {
 		w.Violate("C10", "hook/module-account-residue", "swap-to-native of %s left %s%s in the token module account; logs: %s", t.Symbol, stuck, denom, detail())
 	}
 }
